@@ -468,12 +468,14 @@ WBXML_DECLARE(void) wbxml_encoder_reset(WBXMLEncoder *encoder)
     encoder->output_header = NULL;
     
     encoder->current_tag = NULL;
+    encoder->current_text_parent = NULL;
     encoder->current_attr = NULL;
     encoder->current_node = NULL;
     
     encoder->tagCodePage = 0;
     encoder->attrCodePage = 0;
     
+    encoder->indent = 0;
     encoder->in_content = FALSE;
     encoder->in_cdata = FALSE;
     
@@ -484,7 +486,7 @@ WBXML_DECLARE(void) wbxml_encoder_reset(WBXMLEncoder *encoder)
 
 #if defined( WBXML_ENCODER_USE_STRTBL )
     wbxml_list_destroy(encoder->strstbl, wbxml_strtbl_element_destroy_item);
-    encoder->strstbl = NULL;
+    encoder->strstbl = wbxml_list_create();
     encoder->strstbl_len = 0;
 #endif /* WBXML_ENCODER_USE_STRTBL */
 }
